@@ -271,13 +271,7 @@ func checkC10(c *Ctx) {
 		if large {
 			// a repository whose listings exceed the 64 KiB of an OS pipe, so that every stage of the
 			// pipelines is blocked on a full pipe when the fault strikes (hangs show here)
-			gp := genParams{NBlob: 1500, NTree: 900, NCommit: 300, NTag: 20, MaxEnt: 6, MaxBlob: 40, Merges: true}
-			names := nameTable(false)
-			g := genGraph(rng, gp, names)
-			sc = cases.ScanCase{ID: "c10-large", G: g, Names: names, Style: "full", Roots: []cases.RootSpec{
-				{O: model.Oid{K: "c", I: len(g.Commits)}, Walk: true, IsRef: true, Name: "refs/heads/main", Kind: "plain"},
-				{O: model.Oid{K: "c", I: len(g.Commits) - 1}, Walk: true, IsRef: true, Name: "refs/heads/topic", Kind: "plain"},
-				{O: model.Oid{K: "g", I: len(g.Tags)}, Walk: true, IsRef: true, Name: "refs/tags/v1", Kind: "plain"}}}
+			sc = largeCase(1600)
 		}
 		dir, _ := os.MkdirTemp(c.Scratch, "c10repo-")
 		repoDir := filepath.Join(dir, "r")
@@ -404,7 +398,13 @@ func checkC10(c *Ctx) {
 			}
 			c.Sample(map[string]interface{}{"kind": "fault enumeration", "args": args, "plan": plan, "faulted_runs": len(results), "faults_executed": nhit,
 				"example": results[len(results)/2].Plan})
-			c.Note("repo %d args %v: %d invocations, %d faulted runs (%d faults executed), judged by TLC", ri+1, args, len(plan), len(results), nhit)
+			var sizes []string
+			for _, t := range targets {
+				if t.class == "rev-list" || t.class == "cat-file-batch" || t.class == "cat-file-check" {
+					sizes = append(sizes, fmt.Sprintf("%s=%dB", t.class, t.L))
+				}
+			}
+			c.Note("repo %d args %v: %d invocations (%s), %d faulted runs (%d faults executed), judged by TLC", ri+1, args, len(plan), strings.Join(sizes, " "), len(results), nhit)
 			if nhit == 0 {
 				Infra("no fault was executed (vacuous)")
 			}
@@ -644,4 +644,27 @@ func replayInvalid(c *Ctx, raw json.RawMessage) bool {
 	before := len(sub.Vio)
 	e.invalidInputs(sc, repo, 0, rp.Input.Setup)
 	return len(sub.Vio) > before
+}
+
+// largeCase: a linear history of n commits, each with its own two trees and blob, so that the
+// listings of both pipelines are several times the size of an OS pipe buffer.
+func largeCase(n int) cases.ScanCase {
+	var g model.Graph
+	names := map[int][]byte{1: []byte("f"), 2: []byte("d"), 3: []byte("g")}
+	for i := 1; i <= n; i++ {
+		g.Blobs = append(g.Blobs, 6+i%7)
+		g.Trees = append(g.Trees, []model.Entry{{K: "file", To: i, N: 1, NL: 1}})
+		g.Trees = append(g.Trees, []model.Entry{{K: "tree", To: 2*i - 1, N: 2, NL: 1}, {K: "file", To: 1, N: 3, NL: 1}})
+		c := model.Commit{Tree: 2 * i, Parents: []int{}}
+		if i > 1 {
+			c.Parents = []int{i - 1}
+		}
+		g.Commits = append(g.Commits, c)
+	}
+	g.Tags = []model.Tag{{TK: "c", To: n}}
+	g.Normalize()
+	return cases.ScanCase{ID: "c10-large", G: g, Names: names, Style: "full", Roots: []cases.RootSpec{
+		{O: model.Oid{K: "c", I: n}, Walk: true, IsRef: true, Name: "refs/heads/main", Kind: "plain"},
+		{O: model.Oid{K: "c", I: n - 1}, Walk: true, IsRef: true, Name: "refs/heads/topic", Kind: "plain"},
+		{O: model.Oid{K: "g", I: 1}, Walk: true, IsRef: true, Name: "refs/tags/v1", Kind: "plain"}}}
 }
